@@ -1,4 +1,3 @@
-<<<<<<< HEAD
 #pragma once
 #include <stdint.h>
 #include <stddef.h>
@@ -13,15 +12,3 @@ struct value_string {
 const char *get_value_string(const struct value_string *vs, uint32_t val);
 #define OSMO_ASSERT(exp) do { if (!(exp)) osmo_panic("Assert failed %s %s:%d\n", #exp, __FILE__, __LINE__); } while (0)
 void osmo_panic(const char *fmt, ...);
-=======
-/* shim: the in-tree utils.h plus the macros newer libosmocore added */
-#pragma once
-#include_next <osmocom/core/utils.h>
-#include <stdbool.h>
-#include <stdlib.h>
-#include <stdio.h>
-#ifndef OSMO_ASSERT
-#define OSMO_ASSERT(exp) \
-	do { if (!(exp)) { fprintf(stderr, "Assert failed %s %s:%d\n", #exp, __FILE__, __LINE__); abort(); } } while (0)
-#endif
->>>>>>> 290d82d36de733d6cf0d7509f16f5a44d8446d2e
